@@ -77,7 +77,11 @@ def breaker():
             exp = rp["now"] - rp["opened_at"] >= rp["recovery_timeout_s"]
         else:
             exp = not rp["probe"]
-        return done(d.allowed != exp, observed={"allowed": d.allowed, "state": b._state.name}, expected_allowed=exp, input=rp)
+        # the decision reports the breaker's state (C14: "reported with ... the breaker's state") and names the transition / rejection
+        exp_event = (None if exp else "circuit_rejected") if rp["state"] != "OPEN" else ("circuit_half_open" if exp else "circuit_rejected")
+        bad = d.allowed != exp or d.state is not b._state or d.event != exp_event
+        return done(bad, observed={"allowed": d.allowed, "decision_state": d.state.name, "state": b._state.name, "event": d.event},
+                    expected_allowed=exp, expected_event=exp_event, input=rp)
     if op == "record_success":
         b.record_success()
         exp = "CLOSED" if rp["state"] == "HALF_OPEN" else rp["state"]
